@@ -721,6 +721,11 @@ func (c *Client) receipts(ctx context.Context, url string, bm blockmap, start, l
 		}
 		if len(resps[i].Result) == 0 {
 			// block without transactions
+			if b, ok := bm[start+uint64(i)]; ok && len(b.Txs) > 0 {
+				// the block came from the cache and has been replaced since
+				const tag = "eth_getBlockReceipts no receipts for block with transactions. num=%d"
+				return fmt.Errorf(tag, start+uint64(i))
+			}
 			continue
 		}
 		blockNum := uint64(resps[i].Result[0].BlockNum)
